@@ -8,6 +8,8 @@ CONSTANTS
   BaseCases = TRUE
   NsSet = {"mdPrefix", "selfPrefix", "ancestorPrefix", "selfDefault", "foreignPrefix", "foreignSelf", "foreignDefault", "noNs", "noNsFrame", "undeclared"}
   NsWide = TRUE
+  ChecksFirstAttribute = FALSE
+  AttrForms = {"plainThenForeign", "foreignThenPlain", "foreignOnly"}
 INIT Init
 NEXT Next
 INVARIANTS
